@@ -84,7 +84,7 @@ def build():
 PART_RT = {"name": "rt", "harness": "rt", "model": "Rt", "runtime": True, "gen": gen, "build": build,
            "nontrivial": lambda s: s["hist"].get("rqsteal @Q#b", 0) + s["hist"].get("rqsteal @Q#a", 0) >= 1 or s["hist"].get("w F#.state", 0) >= 12}
 
-def _borrow(pid, pname, n_quick, n_thorough):
+def _borrow(pid, pname, n_quick, n_thorough, harness=None):
     """run another property's runtime harness (its scripts and schedules) and follow its log
     with the RUNTIME model: C01 quantifies over programs mixing all primitives"""
     def gen(rng, tier):
@@ -92,7 +92,7 @@ def _borrow(pid, pname, n_quick, n_thorough):
         m = importlib.import_module("specs_" + pid.lower())
         part = [p for p in m.SPEC[pid]["parts"] if p["name"] == pname][0]
         return part["gen"](rng, tier)[: (n_thorough if tier == "thorough" else n_quick)]
-    return {"name": "rt-" + pname, "harness": pname, "model": "Rt", "runtime": True, "gen": gen,
+    return {"name": "rt-" + pname, "harness": harness or pname, "model": "Rt", "runtime": True, "gen": gen,
             "nontrivial": lambda s: s["hist"].get("w F#.state", 0) >= 8}
 
 
@@ -100,8 +100,13 @@ SPEC = {
     "C01": {
         "parts": [PART_RT,
                   _borrow("C03", "mutex", 80, 1000), _borrow("C05", "cond", 120, 1500),
-                  _borrow("C07", "rwlock", 80, 1000), _borrow("C12", "barrier", 80, 1000)],
-        "rule": "cases = (mixed program over yield/mutex/semaphore/sleep/join for 2-7 fibers, plus the scripts of the mutex, condition-variable, rwlock and barrier harnesses followed by the runtime model, 1-4 kernel threads, scheduler kind+seed) from VERIF_SEED; distinct = different (script, sha1 of the access sequence); non-trivial = a fiber was stolen by another kernel thread or at least 12 state-word writes happened",
+                  _borrow("C07", "rwlock", 80, 1000), _borrow("C12", "barrier", 80, 1000),
+                  _borrow("C11", "signal", 80, 1000, harness="signal"),
+                  _borrow("C11", "chan-bounded", 60, 800, harness="chan"),
+                  _borrow("C11", "chan-unbounded", 60, 800, harness="chan"),
+                  _borrow("C11", "chan-sp", 60, 800, harness="chan"),
+                  _borrow("C11", "multichan", 80, 1000, harness="multichan")],
+        "rule": "cases = (mixed program over yield/mutex/semaphore/sleep/join for 2-7 fibers, plus the scripts of the mutex, condition-variable, rwlock, barrier, signal, channel (bounded/unbounded/sp) and multi-channel harnesses followed by the runtime model, 1-4 kernel threads, scheduler kind+seed) from VERIF_SEED; distinct = different (script, sha1 of the access sequence); non-trivial = a fiber was stolen by another kernel thread or at least 12 state-word writes happened",
         "trusted_base": [
             "run queues as bags at the deque API (rqpush/rqpop/rqsteal call-site events; deque internals = model Wsd, C02)",
             "publication of a waiting fiber reduces to two rules (self-published with SAVING / published by the successor's maintenance); a primitive publishing otherwise is rejected at run time by the model's wake guard",
